@@ -6,6 +6,7 @@ CONSTANTS
   Palettes = {0}
   Kinds = {}
   RestartResizes = TRUE
+  IgnoreModes = {FALSE}
   AnonModes = {}
   Faults = TRUE
   AllowWindow = FALSE
